@@ -18,7 +18,10 @@ CONSTANTS Kind,        \* "eval" | "evalro" | "evalna"
           NCalls,      \* number of calls of the script
           CallWrites,  \* the script's calls are writes (refused under evalro)
           OtherClass,  \* "read" | "write": the class of the other client's command
-          RoChecksWrites  \* deviation guard: FALSE = EVALRO forgets to refuse writes
+          RoChecksWrites, \* deviation guard: FALSE = EVALRO forgets to refuse writes
+          DispatchBy      \* "command": a call is run as the variant of the command that started the script;
+                          \* "script": as the variant named by a global the script can overwrite (EVAL_CMD, as the
+                          \*           pinned tree did): an EVALRO script may have its calls run as EVAL's
 
 VARIABLES writer, readers, spc, calls, opc, applied, order
 vars == <<writer, readers, spc, calls, opc, applied, order>>
@@ -49,7 +52,7 @@ SCallBegin == /\ spc = "running" /\ calls < NCalls
               /\ spc' = "incall" /\ UNCHANGED <<calls, opc, applied, order>>
 
 SCallEnd == /\ spc = "incall"
-            /\ LET refused == Kind = "evalro" /\ CallWrites /\ RoChecksWrites IN
+            /\ LET refused == Kind = "evalro" /\ CallWrites /\ RoChecksWrites /\ DispatchBy = "command" IN
                /\ applied' = IF CallWrites /\ ~refused THEN applied + 1 ELSE applied
                /\ order' = Append(order, <<"s", calls + 1>>)
                /\ calls' = calls + 1
